@@ -249,6 +249,33 @@ pub fn minimise(check: &dyn Check, plan: Plan, vi: &Violation) -> (Plan, Violati
     let mut best = plan;
     let mut best_vi = first.verdict.violations.iter().find(|v| v.rule == vi.rule).cloned().unwrap_or_else(|| vi.clone());
     let mut digest = first.digest;
+    // first cut: nothing scheduled after the violation can matter
+    if let Some(tv) = first.viol_t_ms {
+        if tv + 3_000 < best.deadline_ms {
+            let mut cand = best.clone();
+            cand.deadline_ms = tv + 3_000;
+            cand.stop_on_done = false;
+            for p in cand.peers.iter_mut() {
+                p.script.retain(|s| match s.when {
+                    When::At(t) => t <= tv + 1_000,
+                    _ => true,
+                });
+                p.dial_in.retain(|t| *t <= tv + 1_000);
+            }
+            if check.plan_ok(&cand) {
+                tries += 1;
+                let (one, t) = execute(check, cand.clone(), None);
+                if one.harness_error.is_none() {
+                    if let Some(v) = one.verdict.violations.iter().find(|v| v.rule == vi.rule) {
+                        best = cand;
+                        best_vi = v.clone();
+                        digest = one.digest;
+                        tail = t;
+                    }
+                }
+            }
+        }
+    }
     let mut progress = true;
     while progress && tries < budget {
         progress = false;
